@@ -23,7 +23,6 @@
 package queue
 
 import (
-	"sync"
 	"sync/atomic"
 	"unsafe"
 )
@@ -33,7 +32,6 @@ type Queue struct {
 	head unsafe.Pointer // pointer to the head of the queue
 	tail unsafe.Pointer // pointer to the tail of the queue
 	len  int64          // length of the queue
-	pool sync.Pool
 }
 
 // item is a single node in the queue.
@@ -50,11 +48,6 @@ func NewQueue() *Queue {
 		head: unsafe.Pointer(dummy), // both head and tail point to the dummy node
 		tail: unsafe.Pointer(dummy),
 		len:  0,
-		pool: sync.Pool{
-			New: func() any {
-				return &item{}
-			},
-		},
 	}
 }
 
@@ -129,15 +122,20 @@ func (q *Queue) IsEmpty() bool {
 	return atomic.LoadInt64(&q.len) == 0
 }
 
-// getItem retrieves a node from the pool or creates a new one
+// getItem allocates a node. Nodes are deliberately not recycled: the queue
+// compares raw node pointers in its CAS operations, so a node that is handed out
+// again while a stalled producer still holds it as "the tail" (or is about to
+// link behind it) makes those CAS operations succeed on the wrong node, which
+// loses or reorders values. The garbage collector reclaims a node only once no
+// goroutine can reach it anymore.
 func (q *Queue) getItem() *item {
-	return q.pool.Get().(*item)
+	return &item{}
 }
 
-// releaseItem returns a node to the pool for reuse
+// releaseItem drops the value of a dequeued node. The link is left in place on
+// purpose: a producer that saw this node as the tail with a nil link may still
+// be about to CAS that link, and clearing it would let the CAS succeed on a
+// node that is no longer part of the queue.
 func (q *Queue) releaseItem(i *item) {
-	// Reset i to prevent memory leaks
 	i.v = nil
-	i.next = nil
-	q.pool.Put(i)
 }
